@@ -104,7 +104,8 @@ def setup(it, variant):
     it.ctx.assume(rate > 0)
     meta = {"typeThis": "imec", "snsApLfSy": [SV(z3.ToReal(ncv)), 0.0, SV(z3.ToReal(nc - ncv))], "nSavedChans": SV(z3.ToReal(nc)), "imSampRate": SV(rate),
             "fileTimeSecs": SV(z3.ToReal(ns) / rate), "imMaxInt": 512.0, "imDatPrb_type": 0.0}
-    sr = SObj(spikeglx.Reader, _raw=raw, raw_channel_order=A.arange(0, SV(nc)), channel_conversion_sample2v={"ap": s2v}, meta=meta)
+    sr = SObj(spikeglx.Reader, _raw=raw, raw_channel_order=A.arange(0, SV(nc)), channel_conversion_sample2v={"ap": s2v}, meta=meta, dtype=np.dtype("int16"))
+    out_dt = np.dtype(variant.get("out_dtype", "int16"))
     out_path = fsmodel.GhostPath(fs_, ("out",), "destriped.bin")
     rms_path = fsmodel.GhostPath(fs_, ("out",), "ap_rms.bin")
     time_path = fsmodel.GhostPath(fs_, ("out",), "ap_time.bin")
@@ -118,11 +119,18 @@ def setup(it, variant):
     env = I.Env(None, FN.__globals__, qualname="decompress_destripe_cbin", filename=filename)
     env.vars.update(dict(
         sr_file="REC", reader_kwargs={}, file_saturation="SATFILE", CHUNK_SIZE=SV(CHUNK), NBATCH=SV(NB), SAMPLES_TAPER=TAPER, ncv=SV(ncv), pyfftw=PyfftwStub,
-        output_file=out_path, offset=SV(offset), nc_out=SV(nc_out), nbytes=2, compute_rms=variant.get("compute_rms", True), ap_rms_file=rms_path, ap_time_file=time_path,
-        rms_offset=SV(rms_offset), time_offset=SV(time_offset), rms_nbytes=4, taper=A.fresh_array("taper", "float64", (2 * TAPER,)), sos="SOS", h=h,
+        output_file=out_path, offset=SV(offset), nc_out=SV(nc_out), compute_rms=variant.get("compute_rms", True), ap_rms_file=rms_path, ap_time_file=time_path,
+        rms_offset=SV(rms_offset), time_offset=SV(time_offset), taper=A.fresh_array("taper", "float64", (2 * TAPER,)), sos="SOS", h=h, sr=sr,
         DEPHAS=A.fresh_array("DEPHAS", "complex64", (ncv, NB / 2 + 1)), reject_channels=variant.get("reject", False),
         channel_labels=A.fresh_array("labels", "float64", (ncv,)), spatial_fcn=models.SymCallable(lambda x: same_shape_summary("spatial")(it, [x], {})),
-        t0=SV(z3.Real("t0")), wrot=(A.fresh_array("wrot", "float64", (ncv, ncv)) if variant.get("wrot") else None), dtype=np.int16, ns2add=SV(ns2add)))
+        t0=SV(z3.Real("t0")), wrot=(A.fresh_array("wrot", "float64", (ncv, ncv)) if variant.get("wrot") else None), dtype=out_dt.type, ns2add=SV(ns2add)))
+    # the byte sizes the workers seek with are computed by the set-up part of the function: those statements are executed, not assumed
+    for name in ("nbytes", "rms_nbytes"):
+        sts = [st for st in ast.walk(node) if isinstance(st, ast.Assign) and len(st.targets) == 1 and isinstance(st.targets[0], ast.Name) and st.targets[0].id == name
+               and not any(st in ast.walk(fn_) for fn_ in [inner])]
+        if len(sts) != 1:
+            raise I.Unsupported(f"cannot identify the statement that sets {name} in decompress_destripe_cbin()")
+        it.exec_stmt(sts[0], env)
     it.session.contracts[spikeglx.Reader] = lambda it_, a, k: sr
     it.session.contracts[spikeglx.Reader.close] = lambda it_, a, k: a[0].attrs.__setitem__("closed_by_worker", True)
     it.session.contracts[np.load] = lambda it_, a, k: satfile
@@ -143,7 +151,7 @@ def setup(it, variant):
     before = inner.body[:inner.body.index(loop)]
     after = inner.body[inner.body.index(loop) + 1:]
     assert not after, "my_function: statements after the loop are not covered"
-    sym = dict(ns=ns, nc=nc, ncv=ncv, NB=NB, CHUNK=CHUNK, ichunk=ichunk, nchunk=nchunk, offset=offset, nc_out=nc_out, TAPER=TAPER, raw=raw, satfile=satfile,
+    sym = dict(item=out_dt.itemsize, out_dt=out_dt, ns=ns, nc=nc, ncv=ncv, NB=NB, CHUNK=CHUNK, ichunk=ichunk, nchunk=nchunk, offset=offset, nc_out=nc_out, TAPER=TAPER, raw=raw, satfile=satfile,
                rms_offset=rms_offset, time_offset=time_offset, ns2add=ns2add, rate=rate, out=out_path, rms=rms_path, time=time_path, sr=sr)
     return fenv, before, loop, sym
 
@@ -176,7 +184,8 @@ def run_batch(H, variant, tag):
         it.ctx.oblige(f"inv_init.first_batch_is_real.{tag}", z3.Or(nb0 == 0, NB + stride * (nb0 - 1) < ns), "inv_init",
                       "a worker that enters its loop starts at a real batch: the batch before it does not reach the end of the recording (no phantom batch)")
         # ---- invariant established by the prologue
-        pos_of = lambda first: offset + z3.If(first == 0, z3.IntVal(0), first + TAPER) * nc_out * 2     # noqa
+        item = y["item"]
+        pos_of = lambda first: offset + z3.If(first == 0, z3.IntVal(0), first + TAPER) * nc_out * item     # noqa
         it.ctx.oblige(f"inv_init.first_s.{tag}", first0 == stride * nb0, "inv_init")
         it.ctx.oblige(f"inv_init.file_position.{tag}", term(fid.pos) == pos_of(first0), "inv_init", "worker seeks to the position of its first batch")
         it.ctx.oblige(f"inv_init.start_batch.{tag}", z3.And(nb0 >= 0, z3.Implies(y["ichunk"] == 0, nb0 == 0)), "inv_init")
@@ -222,8 +231,8 @@ def run_batch(H, variant, tag):
             return
         blk = new[0]
         r, c, t = z3.Ints("r c t")
-        it.ctx.oblige(f"write.position.{tag}", term(npos[0]) == offset + a_b * nc_out * 2, "post", "every sample sits at its own position: block of batch b starts at sample a_b")
-        it.ctx.oblige(f"write.rows.{tag}", z3.And(z3.BoolVal(blk.dtype == np.dtype("int16") and blk.ndim == 2), A.T(blk.shape[0]) == e_b - a_b, A.T(blk.shape[1]) == nc_out), "post",
+        it.ctx.oblige(f"write.position.{tag}", term(npos[0]) == offset + a_b * nc_out * item, "post", "every sample sits at its own position: block of batch b starts at sample a_b (in bytes of the output type)")
+        it.ctx.oblige(f"write.rows.{tag}", z3.And(z3.BoolVal(blk.dtype == y["out_dt"] and blk.ndim == 2), A.T(blk.shape[0]) == e_b - a_b, A.T(blk.shape[1]) == nc_out), "post",
                       "kept range [taper, NBATCH-taper), first batch from 0, last batch to the end")
         raw = y["raw"]
         it.ctx.oblige(f"sync.bit_identical.{tag}", A.forall([r, c], lambda: z3.Implies(z3.And(r >= 0, r < e_b - a_b, c >= ncv, c < nc_out), blk.read((r, c)) == raw.read((a_b + r, c)))), "post",
@@ -256,7 +265,7 @@ def run_batch(H, variant, tag):
             want_pad = z3.And(last == ns, y["ns2add"] > 0)
             if pad:
                 p = pad[0]
-                it.ctx.oblige(f"pad.rows.{tag}", z3.And(want_pad, A.T(p.shape[0]) == y["ns2add"], A.T(p.shape[1]) == nc_out, term(npos[1]) == offset + ns * nc_out * 2,
+                it.ctx.oblige(f"pad.rows.{tag}", z3.And(want_pad, A.T(p.shape[0]) == y["ns2add"], A.T(p.shape[1]) == nc_out, term(npos[1]) == offset + ns * nc_out * item,
                                                           A.forall([r, c], lambda: z3.Implies(z3.And(r >= 0, r < y["ns2add"], c >= 0, c < nc_out), p.read((r, c)) == blk.read((e_b - a_b - 1, c))))), "post",
                               "requested padding: ns2add copies of the last written sample, after the last sample")
             else:
@@ -279,6 +288,13 @@ def h_batch(H):
 @harness(PROPERTY, "batch_reject_whiten", replay=replay_batch, functions=["ibldsp.voltage:decompress_destripe_cbin.my_function"], clause="same with channel rejection and whitening")
 def h_batch2(H):
     run_batch(H, {"reject": True, "wrot": True}, "reject_wrot")
+
+
+@harness(PROPERTY, "batch_float32_output", replay=lambda vals, oid: (lambda b: {"failed": bool(b), "cases": [repr(x)[:200] for x in b[:4]]})(native_destripe(np.random.default_rng(7), 20000, 8192, (1, 3), False, out_dtype=np.float32)),
+         functions=["ibldsp.voltage:decompress_destripe_cbin.my_function", "ibldsp.voltage:decompress_destripe_cbin (the statements that set nbytes / rms_nbytes)"],
+         clause="every sample at its own position, byte-identical for any number of workers: also when the output is written as float32 (documented option), positions counted in bytes of the output type")
+def h_batch4(H):
+    run_batch(H, {"reject": False, "wrot": False, "out_dtype": "float32"}, "float32")
 
 
 @harness(PROPERTY, "batch_norms", replay=replay_batch, functions=["ibldsp.voltage:decompress_destripe_cbin.my_function"], clause="same without the RMS quality files")
@@ -345,7 +361,7 @@ def _mk_rec(d, ns, rng, saturate=True, nbatch=None):
     return ap, x
 
 
-def native_destripe(rng, ns, nbatch, workers, k_filter):
+def native_destripe(rng, ns, nbatch, workers, k_filter, out_dtype=None):
     import pyfftw  # noqa  (the shim on sys.path)
     bad = []
     d = tempfile.mkdtemp(prefix="c06_")
@@ -362,8 +378,8 @@ def native_destripe(rng, ns, nbatch, workers, k_filter):
             out = os.path.join(od, "out.bin")
             import joblib
             with joblib.parallel_backend("threading"):      # same fan-out over chunks; avoids spawning loky workers inside the check
-                V.decompress_destripe_cbin(ap, output_file=out, nbatch=nbatch, nprocesses=w, k_filter=k_filter, reject_channels=False, compute_rms=True)
-            y = np.fromfile(out, dtype=np.int16)
+                V.decompress_destripe_cbin(ap, output_file=out, nbatch=nbatch, nprocesses=w, k_filter=k_filter, reject_channels=False, compute_rms=True, **({"dtype": out_dtype} if out_dtype else {}))
+            y = np.fromfile(out, dtype=out_dtype or np.int16)
             if y.size != ns * 385:
                 bad.append(("size", w, y.size // 385, ns))
                 continue
@@ -423,6 +439,8 @@ def b_native(B):
         B.case("output_folder_used_again", bool(same), detail={"rms_rows": [int(res[k][1].shape[0]) for k in ("fresh", "reused")], "timestamps": [int(res[k][2].shape[0]) for k in ("fresh", "reused")]})
     finally:
         shutil.rmtree(d, ignore_errors=True)
+    badf = native_destripe(rng, 20000, 8192, (1, 3) if B.tier == "quick" else (1, 2, 3, 5), False, out_dtype=np.float32)
+    B.case(("float32_output", 20000, 8192), not badf, detail=badf[:4], inputs={"kind": "destripe_float32"})
     for ns, nb, workers, kf in combos:
         bad = native_destripe(rng, ns, nb, workers, kf)
         phantom = [x for x in bad if x[0] in ("rms rows", "bytes differ across worker counts")]
